@@ -63,6 +63,10 @@ package common
 // obligations (quantified over pointers) can use.
 // TxsCanonical: strictly increasing (what the decoder accepts). TxsOrdered: non-decreasing and adjacent elements differ -- what the
 // encoder establishes (the same thing when byte-string order is total; the encoder's check does not need totality).
+// BufApart(buf, s): the encoder's buffer shares no memory with the snapshot (it is a block the encoder allocated).
+//@ spec BufApart(buf []byte, s *Snapshot) bool = !inblock(arr(buf), s.Transactions) && arr(buf) != &s.NodeId &&
+//@     (s.References != nil ==> arr(buf) != &s.References.Self && arr(buf) != &s.References.External) &&
+//@     (s.Signature != nil ==> arr(buf) != &s.Signature.Signature)
 //@ spec TxsCanonical(txs []crypto.Hash) bool = forall i int :: 1 <= i && i < len(txs) ==> lexlt(txs[i-1], txs[i])
 //@ spec TxsOrdered(txs []crypto.Hash) bool = forall i int :: 1 <= i && i < len(txs) ==> !lexlt(txs[i], txs[i-1]) && txs[i-1] != txs[i]
 
@@ -100,7 +104,7 @@ package common
 //@   ensures [wf-sig] (!withSig ==> s.Signature == nil) && (s.Signature != nil ==> s.Signature.Mask != 0)
 //@   ensures [sorted] TxsOrdered(s.Transactions)
 //@   ensures [noop] old(TxsCanonical(s.Transactions)) ==> forall p *crypto.Hash :: {*p} inblock(p, s.Transactions) ==> *p == old(*p)
-//@   ensures [fresh-buf] fresh(enc.buf)
+//@   ensures [fresh-buf] fresh(enc.buf) && allocated(enc.buf) && BufApart(enc.buf, s)
 //@   ensures [len] len(enc.buf) == EncLenSnap(s)
 //@   ensures [bytes] seq(enc.buf) == SnapBytes(s)
 //@   hint at "enc.EncodeRoundReferences(s.References)" [head] seq(enc.buf) == SnapHead(s.Version, s.NodeId, s.RoundNumber) && fresh(enc.buf) && len(enc.buf) == 44
@@ -151,3 +155,19 @@ package common
 //@   ensures [noop] old(TxsCanonical(s.Transactions)) ==> forall p *crypto.Hash :: {*p} inblock(p, s.Transactions) ==> *p == old(*p)
 //@   ensures [fresh] fresh(result)
 //@   ensures [bytes] seq(result) == SnapPayloadBytes(s.Version, s.NodeId, s.RoundNumber, s.References, s.Transactions, s.Timestamp)
+
+// The stored / transmitted form: the full encoding (with the signature) followed by the 8-byte topological order. This is, field by
+// field, the layout DecodeSnapshotWithTopo consumes (magic+version 4, node 32, round 8, references 2|66, count 2, 32 per transaction,
+// timestamp 8, signature 8|72, topology 8): [len] is EncLenSnap + 8, the length the decoder's [canonical-length] clause accepts.
+//@ func (enc *Encoder) EncodeSnapshotWithTopo
+//@   property C07
+//@   requires [args] enc != nil && s != nil && s.Snapshot != nil
+//@   requires [fresh-encoder] enc.buf == nil && len(enc.buf) == 0 && cap(enc.buf) == 0 -- the only caller passes NewEncoder()
+//@   maypanic
+//@   modifies enc.buf, enc.buf[*], s.Transactions[..]
+//@   ensures [wf] SnapEncodable(s.Snapshot)
+//@   ensures [sorted] TxsOrdered(s.Transactions)
+//@   ensures [noop] old(TxsCanonical(s.Transactions)) ==> forall p *crypto.Hash :: {*p} inblock(p, s.Transactions) ==> *p == old(*p)
+//@   ensures [fresh] fresh(result) && result == enc.buf
+//@   ensures [len] len(result) == EncLenSnap(s.Snapshot) + 8
+//@   ensures [bytes] seq(result) == cat(SnapBytes(s.Snapshot), Be64Of(s.TopologicalOrder))
